@@ -16,12 +16,14 @@ pub struct Cfg {
     pub xform: bool,
     pub stable: bool,
     pub synth: bool,
+    /// install an identity `on_instr_loc` callback (locations = absolute input offsets, what the default does too)
+    pub instr_loc: bool,
     /// install the probe custom section (captures the emit-time index map and the code transform)
     pub probe: bool,
 }
 impl Default for Cfg {
     fn default() -> Self {
-        Cfg { names: true, producers: true, dwarf: false, xform: false, stable: false, synth: false, probe: true }
+        Cfg { names: true, producers: true, dwarf: false, xform: false, stable: false, synth: false, instr_loc: false, probe: true }
     }
 }
 impl Cfg {
@@ -33,6 +35,9 @@ impl Cfg {
         c.generate_dwarf(self.dwarf);
         c.only_stable_features(self.stable);
         c.generate_synthetic_names_for_anonymous_items(self.synth);
+        if self.instr_loc {
+            c.on_instr_loc(|pos| walrus::InstrLocId::new(*pos as u32));
+        }
         c
     }
 }
